@@ -299,3 +299,53 @@ Proof.
   change NL_UTF8ESC_MAX with LUA_MAXUTF.
   destruct (LUA_MAXUTF <? v); [discriminate|]. destruct (utf8esc v); [|discriminate]. intros [= <-]. reflexivity.
 Qed.
+
+(* ---- position arguments: utf8relpos = u_posrelat - 1 wherever either is valid ---- *)
+Lemma utf8relpos_eq_lua pos len : in_i64 pos -> 0 <= len <= maxint ->
+  (0 <= nl_utf8relpos pos len <-> 1 <= lua_u_posrelat pos len) /\
+  (0 <= nl_utf8relpos pos len -> nl_utf8relpos pos len = lua_u_posrelat pos len - 1).
+Proof.
+  intros Hp Hl. unfold nl_utf8relpos, lua_u_posrelat, lneg, ladd, wrap64, u64.
+  unfold in_i64, minint, maxint, two63, two64 in *.
+  destruct (Z.leb_spec 0 pos); [lia|].
+  destruct (Z.ltb_spec len ((- pos + 9223372036854775808) mod 18446744073709551616 - 9223372036854775808));
+    destruct (Z.ltb_spec len ((0 - pos mod 18446744073709551616) mod 18446744073709551616)); lia.
+Qed.
+
+(* ---- utf8.codepoint ---- *)
+Lemma cp_loop_val k : forall s len i p strict c,
+  nl_cp_loop k s len i p strict = Val c ->
+  exists n, nl_utf8decode (skipn (Z.to_nat i) s) strict = Some (c, n) /\ i <= len.
+Proof.
+  induction k as [|k IH]; intros s len i p strict c; cbn [nl_cp_loop]; [discriminate|].
+  destruct (Z.ltb_spec len p); [discriminate|].
+  destruct (nl_utf8decode (skipn (Z.to_nat p) s) strict) as [[code adv]|] eqn:E; [|discriminate].
+  destruct (Z.eqb_spec p i) as [->|Hne].
+  - intros [= <-]. exists adv. split; [exact E|lia].
+  - apply IH.
+Qed.
+
+(* wherever the port returns a code point, it is the one Lua returns *)
+Lemma codepoint_eq_lua_partial s i strict c : in_i64 i -> slen s <= maxint ->
+  nl_utf8codepoint s i strict = Val c -> lua_utf8codepoint s i strict = LVal c.
+Proof.
+  intros Hi Hs. pose proof (slen_nonneg s) as H0.
+  unfold nl_utf8codepoint, lua_utf8codepoint.
+  destruct (utf8relpos_eq_lua i (slen s) Hi ltac:(lia)) as [Hiff Heq].
+  destruct (Z.leb_spec 0 (nl_utf8relpos i (slen s))) as [Hge|Hlt]; cbn [andb]; [|discriminate].
+  destruct (Z.ltb_spec (nl_utf8relpos i (slen s)) (slen s)) as [Hlt|Hge2]; [|discriminate].
+  intros H. apply cp_loop_val in H. destruct H as (n & Hd & _).
+  specialize (Heq Hge). apply Hiff in Hge.
+  destruct (Z.ltb_spec (lua_u_posrelat i (slen s)) 1); [lia|].
+  destruct (Z.ltb_spec (slen s) (lua_u_posrelat i (slen s))); [lia|].
+  rewrite <- decode_eq_lua. rewrite <- Heq. rewrite Hd. reflexivity.
+Qed.
+
+(* full statement: utf8.codepoint never reads outside the string - false today *)
+Definition codepoint_memory_safe : Prop :=
+  forall s i strict, is_bytes s = true -> in_i64 i -> nl_utf8codepoint s i strict <> Unsafe.
+Lemma codepoint_memory_safe_refuted : ~ codepoint_memory_safe.
+Proof.
+  intros H. apply (H [228; 184; 173] 2 true); [reflexivity|vm_compute; intuition congruence|].
+  vm_compute. reflexivity.
+Qed.
